@@ -49,11 +49,22 @@ mod native {
     }
 
     /// Simple string-based cache key compatible with cascette-cache
-    #[derive(Debug, Clone, PartialEq, Eq)]
+    #[derive(Debug, Clone)]
     pub struct ProtocolCacheKey {
         key: String,
         cached_key: OnceLock<String>,
     }
+
+    // Manual implementation: `cached_key` is a lazily initialised copy of `key`
+    // and must not take part in equality (a stored key that has been
+    // initialised would never equal a fresh lookup key).
+    impl PartialEq for ProtocolCacheKey {
+        fn eq(&self, other: &Self) -> bool {
+            self.key == other.key
+        }
+    }
+
+    impl Eq for ProtocolCacheKey {}
 
     impl std::hash::Hash for ProtocolCacheKey {
         fn hash<H: std::hash::Hasher>(&self, state: &mut H) {
